@@ -96,21 +96,12 @@ Section Machine.
   Proof. intros s x H. exists O, s. cbn [steps]. auto. Qed.
 
   (* the link with run_loop *)
-  Lemma run_loop_steps : forall n s s1 b, steps n s = Ok s1 ->
-    exists c, run_loop orc prog (n + b) s = (let '(r, sf, l) := run_loop orc prog b s1 in (r, sf, (l + c)%nat))
-              /\ c = O.
-  Proof.
-    induction n as [|n IH]; intros s s1 b H; cbn [steps Nat.add run_loop] in *.
-    - inversion H; subst. exists O. split; [|reflexivity].
-      destruct (run_loop orc prog b s1) as [[r sf] l]. rewrite Nat.add_0_r. reflexivity.
-    - destruct (step orc prog s) as [[s2|v s2]| | |]; try discriminate H. apply IH; exact H.
-  Qed.
-
   Lemma run_loop_reach : forall n s s1 b, steps n s = Ok s1 ->
     run_loop orc prog (n + b) s = run_loop orc prog b s1.
   Proof.
-    intros n s s1 b H. destruct (run_loop_steps n s s1 b H) as [c [E Hc]]. subst c.
-    rewrite E. destruct (run_loop orc prog b s1) as [[r sf] l]. rewrite Nat.add_0_r. reflexivity.
+    induction n as [|n IH]; intros s s1 b H; cbn [steps Nat.add run_loop] in *.
+    - inversion H; subst. reflexivity.
+    - destruct (step orc prog s) as [[s2|v s2]| | |]; try discriminate H. apply IH; exact H.
   Qed.
 End Machine.
 
@@ -165,3 +156,173 @@ Proof.
   intros v idx Hv H. unfold operand in H. change (2 ^ 16) with 65536 in H.
   destruct (v <? 65536) eqn:E; [|discriminate H]. apply Z.ltb_lt in E. inversion H. lia.
 Qed.
+
+(** * The part of the machine state an expression can change *)
+
+Record mst : Type := mkM { m_heap : heap; m_gc : gc; m_gl : list val }.
+
+Definition mst_of (s : vm) : mst := mkM (v_heap s) (v_gc s) (v_globals s).
+
+Definition setm (s : vm) (stk : list val) (n ip : Z) (m : mst) : vm :=
+  mkVM stk n (m_gl m) (v_frames s) ip (v_bp s) (v_final s) (m_heap m) (m_gc m) (v_out s).
+
+(* VM.with_new on the three components *)
+Definition with_new_m (m : mst) (r : val * heap) : mst :=
+  let '(v, h') := r in
+  mkM h' (if Pos.eqb (next_loc h') (next_loc (m_heap m)) then m_gc m else trace (m_gc m) v) (m_gl m).
+
+(* OSetGlobal: the vector grows on demand *)
+Definition set_global (n : nat) (v : val) (gl : list val) : list val :=
+  replace_nth n v (if Nat.ltb n (length gl) then gl else gl ++ repeat_val VNull (S n - length gl)).
+
+Definition set_global_m (n : nat) (v : val) (m : mst) : mst :=
+  mkM (m_heap m) (m_gc m) (set_global n v (m_gl m)).
+
+Lemma mst_eta : forall m, mkM (m_heap m) (m_gc m) (m_gl m) = m.
+Proof. destruct m; reflexivity. Qed.
+
+Lemma setm_eq : forall s stk n ip m n' ip' m', n = n' -> ip = ip' -> m = m' ->
+  setm s stk n ip m = setm s stk n' ip' m'.
+Proof. intros; subst; reflexivity. Qed.
+
+(** * One instruction *)
+
+Ltac vmcbn :=
+  cbn [v_stack v_slen v_globals v_frames v_ip v_bp v_final v_heap v_gc v_out
+       upd_stack upd_ip upd_heap upd_globals upd_final upd_out push pop bind fst snd
+       m_heap m_gc m_gl mst_of setm].
+
+Section Steps.
+  Variable orc : oracle.
+  Variable prog : program.
+
+  Lemma read_u16_op : forall s op v rest, code_at prog (v_ip s) (op :: v mod 256 :: (v / 256) mod 256 :: rest) ->
+    0 <= v < 65536 ->
+    read_u16 prog (upd_ip s (v_ip s + 1)) = Ok (v, upd_ip s (v_ip s + 3)).
+  Proof.
+    intros s op v rest Hc Hv. unfold read_u16. vmcbn.
+    rewrite (code_at_1 _ _ _ _ _ Hc).
+    replace (v_ip s + 1 + 1) with (v_ip s + 2) by lia. rewrite (code_at_2 _ _ _ _ _ _ Hc).
+    rewrite (u16_roundtrip v Hv). replace (v_ip s + 1 + 2) with (v_ip s + 3) by lia. reflexivity.
+  Qed.
+
+  Ltac decode Hc op :=
+    unfold step; rewrite (code_at_0 _ _ _ _ Hc); rewrite (opcode_roundtrip op); cbv beta iota zeta.
+
+  Lemma step_const : forall s v z rest,
+    code_at prog (v_ip s) (byte_of_opcode OConst :: v mod 256 :: (v / 256) mod 256 :: rest) ->
+    0 <= v < 65536 -> nth_error (p_consts prog) (Z.to_nat v) = Some (VInt z) ->
+    step orc prog s = Ok (Continue (setm s (VInt z :: v_stack s) (v_slen s + 1) (v_ip s + 3) (mst_of s))).
+  Proof.
+    intros s v z rest Hc Hv Hk. decode Hc OConst.
+    rewrite (read_u16_op s _ v rest Hc Hv). cbn [bind]. unfold get_const. rewrite Hk. cbn [bind].
+    reflexivity.
+  Qed.
+
+  Lemma step_bool : forall s (b : bool) rest,
+    code_at prog (v_ip s) (byte_of_opcode (if b then OTrue else OFalse) :: rest) ->
+    step orc prog s = Ok (Continue (setm s (VBool b :: v_stack s) (v_slen s + 1) (v_ip s + 1) (mst_of s))).
+  Proof.
+    intros s b rest Hc. destruct b.
+    - decode Hc OTrue. reflexivity.
+    - decode Hc OFalse. reflexivity.
+  Qed.
+
+  Lemma step_get_global : forall s v rest,
+    code_at prog (v_ip s) (byte_of_opcode OGetGlobal :: v mod 256 :: (v / 256) mod 256 :: rest) ->
+    0 <= v < 65536 ->
+    step orc prog s = Ok (Continue (setm s (nth (Z.to_nat v) (v_globals s) VNull :: v_stack s)
+                                         (v_slen s + 1) (v_ip s + 3) (mst_of s))).
+  Proof.
+    intros s v rest Hc Hv. decode Hc OGetGlobal.
+    rewrite (read_u16_op s _ v rest Hc Hv). reflexivity.
+  Qed.
+
+  Lemma step_set_global : forall s v x stk rest,
+    code_at prog (v_ip s) (byte_of_opcode OSetGlobal :: v mod 256 :: (v / 256) mod 256 :: rest) ->
+    0 <= v < 65536 -> v_stack s = x :: stk ->
+    step orc prog s = Ok (Continue (setm s stk (v_slen s - 1) (v_ip s + 3)
+                                         (set_global_m (Z.to_nat v) x (mst_of s)))).
+  Proof.
+    intros s v x stk rest Hc Hv Hs. decode Hc OSetGlobal.
+    rewrite (read_u16_op s _ v rest Hc Hv). cbn [bind]. unfold pop. vmcbn. rewrite Hs. reflexivity.
+  Qed.
+
+  Lemma step_pop : forall s x stk rest,
+    code_at prog (v_ip s) (byte_of_opcode OPop :: rest) -> v_stack s = x :: stk ->
+    step orc prog s =
+    Ok (Continue (mkVM stk (v_slen s - 1) (v_globals s) (v_frames s) (v_ip s + 1) (v_bp s) x
+                       (v_heap s) (v_gc s) (v_out s))).
+  Proof.
+    intros s x stk rest Hc Hs. decode Hc OPop. unfold pop. vmcbn. rewrite Hs. reflexivity.
+  Qed.
+
+  Lemma step_not : forall s x stk rest,
+    code_at prog (v_ip s) (byte_of_opcode ONot :: rest) -> v_stack s = x :: stk ->
+    step orc prog s =
+    match lognot x with
+    | Ok r => Ok (Continue (setm s (r :: stk) (v_slen s - 1 + 1) (v_ip s + 1) (mst_of s)))
+    | Err k => Err k | Fault f => Fault f | OutOfFuel => OutOfFuel
+    end.
+  Proof.
+    intros s x stk rest Hc Hs. decode Hc ONot. unfold pop. vmcbn. rewrite Hs. vmcbn.
+    destruct (lognot x); reflexivity.
+  Qed.
+
+  Lemma with_new_setm : forall s stk n ip r,
+    push (fst r) (with_new (upd_stack (upd_ip s ip) stk n) r)
+    = setm s (fst r :: stk) (n + 1) ip (with_new_m (mst_of s) r).
+  Proof.
+    intros s stk n ip [v h']. unfold with_new, with_new_m, push, upd_stack, upd_ip, upd_heap, setm, mst_of.
+    cbn [v_stack v_slen v_globals v_frames v_ip v_bp v_final v_heap v_gc v_out m_heap m_gc m_gl fst].
+    destruct (Pos.eqb (next_loc h') (next_loc (v_heap s))); reflexivity.
+  Qed.
+
+  Lemma upd_stack_twice : forall s a n b k, upd_stack (upd_stack s a n) b k = upd_stack s b k.
+  Proof. reflexivity. Qed.
+
+  Lemma step_negate : forall s x stk rest,
+    code_at prog (v_ip s) (byte_of_opcode ONegate :: rest) -> v_stack s = x :: stk ->
+    step orc prog s =
+    match negate (v_heap s) x with
+    | Ok r => Ok (Continue (setm s (fst r :: stk) (v_slen s - 1 + 1) (v_ip s + 1) (with_new_m (mst_of s) r)))
+    | Err k => Err k | Fault f => Fault f | OutOfFuel => OutOfFuel
+    end.
+  Proof.
+    intros s x stk rest Hc Hs. decode Hc ONegate. unfold pop. vmcbn. rewrite Hs. vmcbn.
+    destruct (negate (v_heap s) x) as [r| | |]; try reflexivity. vmcbn.
+    rewrite with_new_setm. reflexivity.
+  Qed.
+
+  Lemma step_binary : forall s opc m a b stk rest,
+    code_at prog (v_ip s) (byte_of_opcode opc :: rest) ->
+    assoc opcode_eqb opc binary_dispatch = Some m -> v_stack s = b :: a :: stk ->
+    step orc prog s =
+    match binop orc m (v_heap s) a b with
+    | Ok r => Ok (Continue (setm s (fst r :: stk) (v_slen s - 1 - 1 + 1) (v_ip s + 1) (with_new_m (mst_of s) r)))
+    | Err k => Err k | Fault f => Fault f | OutOfFuel => OutOfFuel
+    end.
+  Proof.
+    intros s opc m a b stk rest Hc Hm Hs. pose proof Hm as Hm2.
+    unfold step; rewrite (code_at_0 _ _ _ _ Hc); rewrite (opcode_roundtrip opc).
+    destruct opc; cbv in Hm2; try discriminate Hm2; clear Hm2;
+      cbv beta iota zeta; rewrite Hm; unfold binary, pop; vmcbn; rewrite Hs; vmcbn;
+      (destruct (binop orc m (v_heap s) a b) as [r| | |]; try reflexivity; vmcbn;
+       rewrite upd_stack_twice, with_new_setm; reflexivity).
+  Qed.
+
+  Lemma step_halt : forall s rest,
+    code_at prog (v_ip s) (byte_of_opcode OHalt :: rest) -> scalar (v_final s) = true ->
+    exists s', step orc prog s = Ok (Halted (v_final s) s') /\ v_out s' = v_out s.
+  Proof.
+    intros s rest Hc Hf. decode Hc OHalt. vmcbn.
+    assert (forall g, untrace (v_heap s) g (v_final s) = Ok g) as Hu.
+    { intros g. unfold untrace. cbn [untrace_fuel].
+      assert (forall l, position_of (v_final s) l = None) as Hp.
+      { induction l as [|x l IH]; cbn [position_of]; [reflexivity|].
+        unfold same_box. destruct (v_final s); try discriminate Hf;
+          (destruct (val_loc x); cbn [val_loc]; rewrite IH; reflexivity). }
+      rewrite Hp. reflexivity. }
+    rewrite Hu. cbn [bind]. eexists. split; [reflexivity|]. reflexivity.
+  Qed.
+End Steps.
